@@ -402,6 +402,11 @@ fn str_prefix6(ost: Option<String>) -> Result<Option<Prefix6>, Error> {
 }
 
 fn str_duration(ost: Option<String>) -> Result<Option<std::time::Duration>, Error> {
+    fn take_number(num: &mut Option<u64>, unit: char) -> Result<u64, Error> {
+        num.take().ok_or_else(|| {
+            Error::InvalidConfig(format!("Expected a number before {} in duration", unit))
+        })
+    }
     ost.map(|st| {
         let mut num = None;
         let mut ret = Default::default();
@@ -415,19 +420,19 @@ fn str_duration(ost: Option<String>) -> Result<Option<std::time::Duration>, Erro
                     }
                 }
                 's' => {
-                    ret += std::time::Duration::from_secs(num.take().unwrap());
+                    ret += std::time::Duration::from_secs(take_number(&mut num, c)?);
                 }
                 'm' => {
-                    ret += std::time::Duration::from_secs(num.take().unwrap() * 60);
+                    ret += std::time::Duration::from_secs(take_number(&mut num, c)? * 60);
                 }
                 'h' => {
-                    ret += std::time::Duration::from_secs(num.take().unwrap() * 3600);
+                    ret += std::time::Duration::from_secs(take_number(&mut num, c)? * 3600);
                 }
                 'd' => {
-                    ret += std::time::Duration::from_secs(num.take().unwrap() * 86400);
+                    ret += std::time::Duration::from_secs(take_number(&mut num, c)? * 86400);
                 }
                 'w' => {
-                    ret += std::time::Duration::from_secs(num.take().unwrap() * 7 * 86400);
+                    ret += std::time::Duration::from_secs(take_number(&mut num, c)? * 7 * 86400);
                 }
                 x if x.is_whitespace() => (),
                 '_' => (),
